@@ -32,8 +32,12 @@ import (
 	"github.com/ethereum/go-ethereum/common"
 	"github.com/ethereum/go-ethereum/core/rawdb"
 	"github.com/ethereum/go-ethereum/crypto"
+	"github.com/ethereum/go-ethereum/ethdb"
 	"github.com/ethereum/go-ethereum/trie"
+	"github.com/ethereum/go-ethereum/trie/trienode"
+	"github.com/ethereum/go-ethereum/triedb"
 	"github.com/ethereum/go-ethereum/triedb/database"
+	"github.com/ethereum/go-ethereum/triedb/pathdb"
 	tk "verif/harness/triekit"
 	tl "verif/harness/tracelib"
 )
@@ -63,6 +67,7 @@ type action struct {
 }
 
 type env struct {
+	triedb   bool
 	pad      int
 	universe [][]int
 	r        *rand.Rand
@@ -74,6 +79,69 @@ type world struct {
 	hash  *tk.RawStore
 	root  common.Hash
 	roots []committed // earlier generations
+	// optional: the same node sets fed to real triedb backends (path and hash scheme)
+	pdisk, hdisk ethdb.Database
+	pdb, hdb     *triedb.Database
+	gen          uint64
+}
+
+// withTriedb attaches real triedb databases (pathdb and hashdb over memory databases).
+func (w *world) withTriedb() *world {
+	w.pdisk, w.hdisk = rawdb.NewMemoryDatabase(), rawdb.NewMemoryDatabase()
+	w.pdb = triedb.NewDatabase(w.pdisk, &triedb.Config{PathDB: pathdb.Defaults})
+	w.hdb = triedb.NewDatabase(w.hdisk, triedb.HashDefaults)
+	return w
+}
+
+func (w *world) close() {
+	if w.pdb != nil {
+		w.pdb.Close()
+		w.hdb.Close()
+	}
+}
+
+// feedTriedb hands the commit's node set to both triedb backends, flushes them to disk and
+// compares: the path-scheme disk key space with the model's stored nodes, and a complete
+// read of the new root through both backends.
+func (e *env) feedTriedb(w *world, parent, root common.Hash, set *trienode.NodeSet, expected map[string]tk.RefNode, kv []tk.KV) string {
+	if w.pdb == nil || set == nil || parent == root {
+		return ""
+	}
+	w.gen++
+	if err := w.pdb.Update(root, parent, w.gen, trienode.NewWithNodeSet(set), triedb.NewStateSet()); err != nil {
+		return "pathdb Update: " + err.Error()
+	}
+	if err := w.pdb.Commit(root, false); err != nil {
+		return "pathdb Commit: " + err.Error()
+	}
+	if err := w.hdb.Update(root, parent, w.gen, trienode.NewWithNodeSet(set), nil); err != nil {
+		return "hashdb Update: " + err.Error()
+	}
+	if err := w.hdb.Commit(root, false); err != nil {
+		return "hashdb Commit: " + err.Error()
+	}
+	// every stored node of the model is served by both backends with the reference blob
+	// (pathdb keeps recent nodes in its write buffer: the raw disk key space is not compared)
+	pr, err := w.pdb.NodeReader(root)
+	if err != nil {
+		return "pathdb NodeReader: " + err.Error()
+	}
+	hr, err := w.hdb.NodeReader(root)
+	if err != nil {
+		return "hashdb NodeReader: " + err.Error()
+	}
+	for p, x := range expected {
+		if b, err := pr.Node(common.Hash{}, []byte(p), x.Hash); err != nil || !bytes.Equal(b, x.Blob) {
+			return fmt.Sprintf("pathdb serves %x (%v) at path %x, reference encoding is %x", b, err, p, x.Blob)
+		}
+		if b, err := hr.Node(common.Hash{}, []byte(p), x.Hash); err != nil || !bytes.Equal(b, x.Blob) {
+			return fmt.Sprintf("hashdb serves %x (%v) for hash %x, reference encoding is %x", b, err, x.Hash, x.Blob)
+		}
+	}
+	if d := e.readAll(w.pdb, root, kv, "triedb path scheme"); d != "" {
+		return d
+	}
+	return e.readAll(w.hdb, root, kv, "triedb hash scheme")
 }
 
 type committed struct {
@@ -151,7 +219,7 @@ func (e *env) commit(w *world, tr *trie.Trie, exp *expState, minset []minEntry, 
 	}
 	expected := ref.StoredByPath()
 	old := w.path.Listing()
-	root, set := tr.Commit(e.r.Intn(2) == 0)
+	root, set := tr.Commit(e.r.Intn(2) == 0 && w.pdb == nil) // hashdb decodes collected leaves as accounts
 	if root != refRoot {
 		return fmt.Sprintf("Commit root %x, reference root of the model tree %x", root, refRoot)
 	}
@@ -227,6 +295,9 @@ func (e *env) commit(w *world, tr *trie.Trie, exp *expState, minset []minEntry, 
 	}
 	w.path.Apply(set)
 	w.hash.Apply(set)
+	if d := e.feedTriedb(w, w.root, root, set, expected, exp.KV); d != "" {
+		return d
+	}
 	// key-space listing of the path scheme = StoredPaths of the model
 	now := w.path.Listing()
 	for p, x := range expected {
@@ -442,6 +513,9 @@ func runSim(e *env, in string) {
 	shapes := map[string]bool{}
 	for bi, b := range behaviours {
 		w := newWorld()
+		if e.triedb {
+			w.withTriedb()
+		}
 		tr, _ := e.open(w, false)
 		shape := ""
 		gens := 0
@@ -482,6 +556,7 @@ func runSim(e *env, in string) {
 				break
 			}
 		}
+		w.close()
 		e.sum.Evaluations++
 		if !shapes[shape] && gens > 0 {
 			shapes[shape] = true
@@ -527,10 +602,11 @@ func main() {
 	pad := flag.Int("pad", 0, "zero nibbles appended to model keys")
 	nib := flag.String("nib", "0,1", "nibble alphabet of the model")
 	keylen := flag.Int("keylen", 2, "model key length")
+	withTriedb := flag.Bool("triedb", false, "sim: also feed the node sets to real triedb path/hash databases")
 	flag.Parse()
 	seed := int64(tl.EnvInt("VERIF_SEED", 1))
 	sum := tl.NewSummary("c07", *mode, seed)
-	e := &env{pad: *pad, universe: universe(parseNib(*nib), *keylen), r: tl.Rand(seed), sum: sum}
+	e := &env{triedb: *withTriedb, pad: *pad, universe: universe(parseNib(*nib), *keylen), r: tl.Rand(seed), sum: sum}
 	switch *mode {
 	case "edges":
 		runEdges(e, *in)
